@@ -107,6 +107,7 @@ def run(ch, ctx, fault=None):
         if fault:
             ctx.op("fault: %r" % (fault,))
         live = []
+        handed_over = []
         key = []
         n_ops = ch.int("n_ops", 3, ctx.cfg["max_ops"])
 
@@ -230,6 +231,12 @@ def run(ch, ctx, fault=None):
                     try:
                         it = RenderIterator._from_render_data_(
                             r, rd, None, pad, ch.pick("loops", (1, 2)), finalize=fin)
+                    except BaseException:
+                        if fin:
+                            # the half-built iterator was to own the data: once it is gone the
+                            # data is final, whether or not the caller still holds the object
+                            handed_over.append((tok, rd))
+                        raise
                     finally:
                         del rd
                     live.append(Live(it, tok, fin, desc))
@@ -247,11 +254,13 @@ def run(ch, ctx, fault=None):
                     too_big = ch.bool("too_big", 0.5)
                     if too_big:
                         vt.resize(1, 1)
-                    desc = "%r._init_render_(finalize=True, check_size=True) on %dx%d terminal" % (
-                        r, vt.cols, vt.rows)
+                    # (a render class may drive a sequence of renders itself: iteration=True)
+                    iteration = r.animated and ch.bool("iteration", 0.4)
+                    desc = "%r._init_render_(finalize=True, check_size=True%s) on %dx%d terminal" % (
+                        r, ", iteration=True" if iteration else "", vt.cols, vt.rows)
                     try:
                         r._init_render_(r._render_, None, padding_mod.AlignedPadding(3, 2),
-                                        finalize=True, check_size=True)
+                                        iteration=iteration, finalize=True, check_size=True)
                     finally:
                         if too_big:
                             vt.resize(rows, cols)
@@ -510,7 +519,9 @@ def run(ch, ctx, fault=None):
                         must_be_final(tok, "operation failed with %s" % type(exc).__name__, op)
                 expected_validation = op in ("draw", "init_render_final") and \
                     type(exc).__name__ == "RenderSizeOutofRangeError"
-                if expected_validation:
+                if op == "init_render_final" and type(exc) is StopIteration and not fault_here:
+                    ctx.nontrivial = True      # an exhausted INDEFINITE source says so
+                elif expected_validation:
                     ctx.probe("size_validation_failed_in_draw")
                     ctx.nontrivial = True
                 elif not fault_here:
@@ -531,6 +542,13 @@ def run(ch, ctx, fault=None):
                     # finalized exactly once, which the end-of-history count decides)
                     iterator_closed_checks(lv, "next.error")
                 del exc
+                if handed_over:
+                    gc.collect()
+                    for tok_, _rd in handed_over:
+                        must_be_final(tok_, "iterator construction failed, iterator collected",
+                                      "from_data")
+                    del handed_over[:]
+                    _rd = None
             else:
                 # the operation completed: data created for a one-shot operation is final now
                 if op in ("str", "render", "draw", "init_render_final"):
